@@ -17,6 +17,7 @@ func checkC02(p *Program, r *Result) {
 		"(C02.c) with a metadata callback installed, every iteration over the metadata indexes either returns an error or invokes the callback on the record parsed from that entry's offset, and the sequential iterator invokes it for every metadata token; " +
 		"(C02.d) GetAttachmentReader seeks to offset+9 and GetMetadata to offset, the convention under which the writer records index offsets (position of the opcode byte); " +
 		"(C02.e) Reader.Messages returns the index-based iterator only on the branch where the gate is true; " +
+		"(C02.k) every read the index-based path issues on the Reader's shared io.ReadSeeker is preceded on every path, in the same function, by an absolute seek (the stream position is not private to an iterator); " +
 		"(C02.o) a chunk slot's buffer owns its bytes (never a view of the shared read buffer); (C02.b) both iterators bind message, channel and schema by id (C01.d)."
 	r.NotDecided = []string{"element-wise equality of the indexed and sequential sequences (run-time)", "order of file-order reads"}
 	r.rule("C02.a", "silently skipped tables are consulted by the index gate", 1)
@@ -25,6 +26,7 @@ func checkC02(p *Program, r *Result) {
 	r.rule("C02.e", "indexed iterator only behind a true gate", 1)
 	r.rule("C02.o", "chunk slot buffers own their bytes", 2)
 	r.rule("C02.b", "binding keys", 4)
+	r.rule("C02.k", "reads of the shared stream are positioned", 5)
 
 	checkIndexGate(p, r)
 	checkMetadataCallback(p, r)
@@ -32,6 +34,7 @@ func checkC02(p *Program, r *Result) {
 	checkFallbackShape(p, r)
 	checkSlotOwnership(p, r, "C02.o")
 	checkBindingKeys(p, r, "C02.b")
+	checkPositionedReads(p, r)
 }
 
 // silentTables: iterator fields (slicemaps) whose Get(...) == nil test does not lead to an error on every path.
